@@ -263,6 +263,7 @@ inductive ReSt where
   | esc                 -- after a backslash, outside a class
   | cls (fresh : Bool)  -- inside `[…]`; fresh = the next `]` is a literal (just after `[` or `[^`)
   | clsEsc              -- after a backslash inside a class
+  | clsNamed (colon : Bool)  -- inside `[:name:]` within a class; colon = the previous character was `:`
   | paren               -- just after `(`
   | parenQ              -- just after `(?`
   | parenQP             -- just after `(?P`
@@ -272,24 +273,34 @@ inductive ReSt where
 def normalStep (c : Char) : ReSt :=
   if c = '\\' then .esc else if c = '[' then .cls true else if c = '(' then .paren else .normal
 
-/-- one character: the new state and whether a capturing group was just recognised -/
-def reStep : ReSt → Char → ReSt × Bool
-  | .normal, c => (normalStep c, false)
-  | .esc, _ => (.normal, false)
-  | .cls fresh, c =>
+/-- does `:]` occur in the text (the end of a `[:name:]` item) -/
+def hasNamedEnd : Text → Bool
+  | ':' :: ']' :: _ => true
+  | _ :: cs => hasNamedEnd cs
+  | [] => false
+
+/-- one character (`rest` = what follows it): the new state and whether a capturing group was just
+recognised -/
+def reStep : ReSt → Char → Text → ReSt × Bool
+  | .normal, c, _ => (normalStep c, false)
+  | .esc, _, _ => (.normal, false)
+  | .cls fresh, c, rest =>
     if c = '\\' then (.clsEsc, false)
     else if c = ']' && !fresh then (.normal, false)
     else if c = '^' && fresh then (.cls true, false)
+    else if c = '[' && (match rest with | ':' :: r => hasNamedEnd r | _ => false) then (.clsNamed false, false)
     else (.cls false, false)
-  | .clsEsc, _ => (.cls false, false)
-  | .paren, c => if c = '?' then (.parenQ, false) else (normalStep c, true)
-  | .parenQ, c =>
+  | .clsEsc, _, _ => (.cls false, false)
+  | .clsNamed colon, c, _ =>
+    if c = ']' && colon then (.cls false, false) else (.clsNamed (c = ':'), false)
+  | .paren, c, _ => if c = '?' then (.parenQ, false) else (normalStep c, true)
+  | .parenQ, c, _ =>
     if c = 'P' then (.parenQP, false) else if c = '<' then (.normal, true) else (normalStep c, false)
-  | .parenQP, c => if c = '<' then (.normal, true) else (normalStep c, false)
+  | .parenQP, c, _ => if c = '<' then (.normal, true) else (normalStep c, false)
 
 def countGroupsAux : ReSt → Text → Nat
   | st, [] => if st = .paren then 1 else 0
-  | st, c :: cs => (if (reStep st c).2 then 1 else 0) + countGroupsAux (reStep st c).1 cs
+  | st, c :: cs => (if (reStep st c cs).2 then 1 else 0) + countGroupsAux (reStep st c cs).1 cs
 
 /-- `regexp.MustCompile(lit).NumSubexp()` -/
 def countGroups (lit : Text) : Nat := countGroupsAux .normal lit
